@@ -87,16 +87,16 @@ theorem skipBlanks_cons {c : UInt8} {r : Bytes} (h : isBlank c = false) : skipBl
 /-- the parser decodes exactly what `escape` encoded, whatever the bytes -/
 theorem readValue_escape (v rest : Bytes) : readValue (escape v ++ 34 :: rest) = some (v, rest) := by
   induction v with
-  | nil => simp [escape, readValue]
+  | nil => simp only [escape, List.nil_append]; rw [readValue.eq_def]; simp
   | cons c cs ih =>
     unfold escape
     by_cases h1 : c = 92
-    · subst h1; simp [readValue, ih]
+    · subst h1; simp only [if_true, List.cons_append]; rw [readValue.eq_def]; simp [ih]
     · by_cases h2 : c = 34
-      · subst h2; simp [readValue, ih]
+      · subst h2; simp only [if_true, List.cons_append]; rw [readValue.eq_def]; simp [ih]
       · by_cases h3 : c = 10
-        · subst h3; simp [readValue, ih]
-        · simp [h1, h2, h3, readValue, ih]
+        · subst h3; simp only [if_true, List.cons_append]; rw [readValue.eq_def]; simp [ih]
+        · simp only [h1, h2, h3, if_false, List.cons_append]; rw [readValue.eq_def]; simp [h1, h2, h3, ih]
 
 theorem escape_safe (v : Bytes) (h : safeValue v = true) : escape v = v := by
   induction v with
@@ -174,9 +174,10 @@ theorem readLabels_step (f : Nat) (k v X : Bytes) (hk : validLabelName k = true)
     skipBlanks_cons (by decide)
   have e5 : skipBlanks (34 :: (escape v ++ 34 :: X)) = 34 :: (escape v ++ 34 :: X) :=
     skipBlanks_cons (by decide)
-  unfold readLabels
+  rw [readLabels]
   simp only [e1, hcn.2.2.2.1, if_false, hc, Bool.not_true, Bool.false_eq_true, e2, e3, e4, ne_eq,
     not_true_eq_false, e5, readValue_escape]
+  cases skipBlanks X <;> rfl
 
 theorem length_le_renderPairs (esc : Bytes → Bytes) (ls : List Label) :
     ls.length ≤ (renderPairs esc ls).length + 1 := by
@@ -250,34 +251,42 @@ theorem fmtNat_ne_nil (n : Nat) : fmtNat n ≠ [] := by
   unfold fmtNat
   simp [Nat.toDigits_ne_nil]
 
-/-- whatever `strconv.FormatInt` prints is a value token -/
-theorem goodVal_fmtInt (v : Int) : goodVal (fmtInt v) = true := by
+theorem isIntTok_fmtInt (v : Int) : isIntTok (fmtInt v) = true := by
   have hd := fmtNat_digits v.natAbs
   have hne := fmtNat_ne_nil v.natAbs
-  have hall : ∀ c ∈ fmtNat v.natAbs, (!isBlank c && c != 10 && c != 123) = true := by
-    intro c hc
-    have := digit_ne (hd c hc)
-    simp [this.1, this.2.1, this.2.2.1]
-  unfold fmtInt goodVal isValueTok
+  unfold fmtInt
   split
-  · have h1 : isIntTok (45 :: fmtNat v.natAbs) = true := by
-      simp only [isIntTok, beq_self_eq_true, Bool.true_or, if_true, Bool.and_eq_true, Bool.not_eq_true',
-        List.isEmpty_eq_false_iff, List.all_eq_true]
-      exact ⟨hne, hd⟩
-    rw [h1]
-    simp only [Bool.true_or, Bool.true_and, List.all_cons, Bool.and_eq_true, List.all_eq_true]
-    exact ⟨by decide, hall⟩
+  · simp only [isIntTok, beq_self_eq_true, Bool.true_or, if_true, Bool.and_eq_true, Bool.not_eq_true',
+      List.isEmpty_eq_false_iff, List.all_eq_true]
+    exact ⟨hne, hd⟩
   · cases hn : fmtNat v.natAbs with
     | nil => exact absurd hn hne
     | cons d ds =>
-      rw [hn] at hd hall
+      rw [hn] at hd
       have hdd := digit_ne (hd d List.mem_cons_self)
-      have h1 : isIntTok (d :: ds) = true := by
-        simp only [isIntTok, beq_iff_eq, hdd.2.2.2.1, hdd.2.2.2.2, or_self, if_false, List.all_eq_true]
-        exact hd
-      rw [h1]
-      simp only [Bool.true_or, Bool.true_and, List.all_eq_true]
-      exact hall
+      have h45 : (d == 45) = false := by simp [hdd.2.2.2.1]
+      have h43 : (d == 43) = false := by simp [hdd.2.2.2.2]
+      simp only [isIntTok, h45, h43, Bool.or_self, Bool.false_eq_true, if_false, List.all_eq_true]
+      exact hd
+
+/-- whatever `strconv.FormatInt` prints is a value token -/
+theorem goodVal_fmtInt (v : Int) : goodVal (fmtInt v) = true := by
+  have hd := fmtNat_digits v.natAbs
+  have hall : ∀ c ∈ fmtInt v, (!isBlank c && c != 10 && c != 123) = true := by
+    intro c hc
+    have hdig : c = 45 ∨ isDigit c = true := by
+      unfold fmtInt at hc
+      split at hc
+      · rcases List.mem_cons.mp hc with rfl | hc
+        · exact Or.inl rfl
+        · exact Or.inr (hd c hc)
+      · exact Or.inr (hd c hc)
+    rcases hdig with rfl | hdig
+    · decide
+    · have := digit_ne hdig
+      simp [this.1, this.2.1, this.2.2.1]
+  simp only [goodVal, isValueTok, isIntTok_fmtInt, Bool.true_or, Bool.true_and, List.all_eq_true]
+  exact hall
 
 theorem goodVal_chars {v : Bytes} (h : goodVal v = true) :
     (∃ c r, v = c :: r) ∧ ∀ c ∈ v, isBlank c = false ∧ c ≠ 10 ∧ c ≠ 123 := by
@@ -316,14 +325,14 @@ theorem parse_tail (name : Bytes) (labels : List Label) (val : Bytes) (hv : good
   obtain ⟨⟨c, r, rfl⟩, hall⟩ := goodVal_chars hv
   have hnb : ∀ x ∈ c :: r, (fun c => !isBlank c) x = true := by
     intro x hx; simp [(hall x hx).1]
-  have e1 : skipBlanks (32 :: c :: r) = c :: r := by
-    simp only [skipBlanks, List.dropWhile_cons]
+  have e1 : List.dropWhile isBlank (32 :: c :: r) = c :: r := by
+    simp only [List.dropWhile_cons]
     rw [if_pos (by decide)]
     have := (hall c List.mem_cons_self).1
     simp [this]
   have hvt : isValueTok (c :: r) = true := by
     simp only [goodVal, Bool.and_eq_true] at hv; exact hv.1
-  simp only [e1, takeWhile_all hnb, dropWhile_all hnb, skipBlanks, List.dropWhile_nil, List.takeWhile_nil,
+  simp only [skipBlanks, e1, takeWhile_all hnb, dropWhile_all hnb, List.dropWhile_nil, List.takeWhile_nil,
     List.isEmpty_nil, hvt, Bool.true_or, Bool.and_self, if_true]
 
 /-- **Line theorem (escaping renderer, all byte strings).**  A sample rendered with a label set is
